@@ -9,7 +9,7 @@ open HTree
 namespace Forest
 
 section gap
-variable {f : Forest} {a : Nat} {init : List Frame} {fr : Frame} {l0 : List HTree} {P A N : HTree}
+variable {f : Forest} {a : Nat} {init : List ZipFrame} {fr : ZipFrame} {l0 : List HTree} {P A N : HTree}
   {r0 : List HTree} {ps ns : Str}
 
 /-- The replacing node is not a text node: it lands exactly in the hole. -/
